@@ -10,14 +10,19 @@ Op `pair_eval`: a base election and a perturbation of it, both evaluated by the 
   'bucklin'           PreferenceAddition(): kinds 'lift', 'new' (bullet ballot)
   'bucklin_whole'     PreferenceAddition(split_equal_rankings=False): the same
   'copeland', 'minimax_wv', 'minimax_margins', 'schulze'
-                      PreConverted(RankedToCondorcetVotes(), ...): kinds 'lift', 'new' (bullet ballot)
+                      PreConverted(RankedToCondorcetVotes(), ...): kinds 'lift', 'new' (bullet ballot), 'new_full'
 
 Reading (DESIGN 7/C17).  A single ballot improvement replaces ONE unit of weight of one ballot by the same
 ballot on which the winner w is taken out and re-inserted as a rank of its own at a position not below its
 old one ('lift'; an unranked w counts as ranked below everybody); for approval w is added to the approved set;
 for scores w's score is raised (or a non-negative score is given where there was none).  A new ballot has w
-alone at the top; its remaining content is arbitrary (among the candidates of the election) for the additive
-rules and empty (bullet ballot) for Bucklin, Copeland, minimax and Schulze.  Tie-free base: the one-seat result
+alone at the top; its remaining content is arbitrary (among the candidates of the election).  For the additive
+rules that is kind 'new'.  For Bucklin, Copeland, minimax and Schulze both readings are checked: kind 'new' is the
+bullet ballot (proved harmless for all of them), kind 'new_full' is w followed by a strict order of some other
+candidates.  'new_full' holds for minimax with margins (proved: minimax_monotone_new_full) and FAILS, as a property
+of the voting rule itself, for Bucklin (both variants), Copeland, minimax with winning votes and Schulze: one open
+known finding per rule (signature '<rule>:winner_monotone:new_full', Lean witness <rule>_new_full_witness); a failing
+lift or bullet ballot of the same rule has another signature ('...:lift', '...:new') and stays a VIOLATION.  Tie-free base: the one-seat result
 is [w] and, for Copeland / minimax / Schulze, w is strictly first in the rule's own relation (recomputed here
 from the ballots).  Divisor rules: no tie-freeness; seats inside an unresolved Tie are counted for nobody.
 """
@@ -37,7 +42,9 @@ REQUIRED = ['ha_house_monotone', 'ha_house_monotone_general', 'ha_vote_monotone'
             'bucklin_monotone_lift', 'bucklin_monotone_bullet', 'bucklin_default_monotone_lift',
             'bucklin_default_monotone_bullet', 'copeland_monotone', 'minimax_monotone',
             'copeland_monotone_lift', 'copeland_monotone_bullet', 'minimax_monotone_lift', 'minimax_monotone_bullet',
-            'schulze_monotone', 'schulze_monotone_lift', 'schulze_monotone_bullet']
+            'schulze_monotone', 'schulze_monotone_lift', 'schulze_monotone_bullet',
+            'minimax_monotone_added', 'minimax_monotone_new_full', 'bucklin_new_full_witness', 'bucklin_default_new_full_witness',
+            'copeland_new_full_witness', 'minimax_wv_new_full_witness', 'schulze_new_full_witness']
 UNPROVED = ["score_sum_monotone for unscored_value='min' (modelled through C12's {score: count} table model, checked by "
             'correspondence and oracle; the theorems cover unscored_value None and every numeric value)',
             'bucklin_default_monotone on profiles WITH shared ranks (the even split over the compatible strict orders is '
@@ -620,6 +627,31 @@ def ranked_moves(rule, param, base, w, rng=None, limit=None, extra_tags=()):
     if rule in BULLET_RULES:
         out.append(_mk(rule, param, base, add_ballot(base, [w]), w, 'new', {'kind': 'new', 'ballot': [w]},
                        [f'{rule}:new'] + list(extra_tags)))
+        # the wider reading of "a new ballot that ranks the winner first": w, then a strict order of some others
+        rest = [c for c in cs if c != w]
+        fulls = []
+        if rng is not None:
+            if rest:
+                r1 = rest[:]
+                rng.shuffle(r1)
+                fulls.append([w] + r1)
+                r2 = rest[:]
+                rng.shuffle(r2)
+                fulls.append([w] + r2[:rng.randint(1, len(r2))])
+        elif len(rest) <= 3:
+            for k in range(1, len(rest) + 1):
+                for perm in itertools.permutations(rest, k):
+                    fulls.append([w] + list(perm))
+        else:
+            for perm in itertools.islice(itertools.permutations(rest), 0, 720, 17 if len(rest) > 4 else 1):
+                fulls.append([w] + list(perm))
+        seen = []
+        for nb in fulls:
+            if nb in seen:
+                continue
+            seen.append(nb)
+            out.append(_mk(rule, param, base, add_ballot(base, nb), w, 'new_full', {'kind': 'new', 'ballot': nb},
+                           [f'{rule}:new_full'] + list(extra_tags)))
     else:
         news = [[w]]
         if rng is not None:
@@ -664,6 +696,63 @@ def gen_ranked(rng, rule, n_prof, limit=8):
         made += 1
         for c in _tag_premise(ranked_moves(rule, param, base, w, rng, limit), rule):
             yield c
+
+
+CONDORCET_RULES = ['copeland', 'minimax_wv', 'minimax_margins', 'schulze']
+
+
+def has_condorcet_winner(prof):
+    cs, d = pairwise(prof)
+    return any(all(d[x][y] > d[y][x] for y in cs if y != x) for x in cs)
+
+
+def _cycle_profile(rng):
+    """4-6 candidates: the rotations of one order with unequal weights (a majority cycle) plus a few extra ballots"""
+    from families import gen_ranked_cycle
+    m = rng.randint(4, 6)
+    base = []
+    for b, s in gen_ranked_cycle(rng, m):
+        base = _add_weight(base, list(b), Fraction(s))
+    for _ in range(rng.randint(0, 3)):
+        cs = list(range(m))
+        rng.shuffle(cs)
+        base = _add_weight(base, cs[:rng.randint(1, m)], Fraction(rng.choice([1, 1, 2])))
+    return [[b, num_str(k)] for b, k in base]
+
+
+def _add_weight(base, b, k):
+    out = [[x, y] for x, y in base]
+    for e in out:
+        if e[0] == b:
+            e[1] = Fraction(e[1]) + k
+            return out
+    out.append([b, Fraction(k)])
+    return out
+
+
+def gen_condorcet_cycles(rng, n_prof, limit=14):
+    """cyclic profiles of 4-6 candidates WITHOUT a Condorcet winner in which the rule's own relation still has a strict
+    first (beat-paths of three and more edges, worst defeats inside a cycle, Copeland scores of a tournament)"""
+    for rule in CONDORCET_RULES:
+        made = 0
+        tries = 0
+        while made < n_prof and tries < n_prof * 80:
+            tries += 1
+            base = _cycle_profile(rng)
+            if len(all_cands(base)) < 4 or has_condorcet_winner(base):
+                continue
+            param = _param(rng, rule)
+            w = ref_winner(rule, param, base)
+            if w is None:
+                continue
+            made += 1
+            cases = ranked_moves(rule, param, base, w, rng, None, extra_tags=(f'{rule}:no_cw_4plus',))
+            lifts = [c for c in cases if c['kind'] == 'lift']
+            other = [c for c in cases if c['kind'] != 'lift']
+            if len(lifts) > limit:
+                lifts = rng.sample(lifts, limit)
+            for c in _tag_premise(lifts + other, rule):
+                yield c
 
 
 def gen_plurality(rng, n_prof):
@@ -912,6 +1001,15 @@ def gen_ha(rng, n_cfg):
 
 # -- directed cases: guarantee every REQUIRED_COUNTERS tag for every seed
 
+NEW_FULL_WITNESSES = [
+    ('bucklin', None, [[[2, 0, 1], '1'], [[3, 1], '1']], 1, [1, 2]),
+    ('bucklin_whole', None, [[[0, 2], '1'], [[3, 1, 2], '1']], 2, [2, 0]),
+    ('copeland', 1, [[[4, 3, 0, 1, 2], '1'], [[1, 2, 4, 3, 0], '1'], [[2, 4, 3, 0, 1], '1'], [[1], '1']], 2, [2, 4, 1, 3, 0]),
+    ('minimax_wv', None, [[[1, 2], '2'], [[0], '2'], [[2, 0], '1']], 2, [2, 1]),
+    ('schulze', None, [[[2], '2'], [[1, 2], '1'], [[0, 3, 1, 2], '2']], 1, [1, 0, 3]),
+]
+
+
 def directed_cases():
     out = []
     # the DESIGN 11.1 witness of fix 20ca103 (c=0, b=1, a=2, d=3)
@@ -971,6 +1069,44 @@ def directed_cases():
                 for c in ranked_moves(rule, None, base, w):
                     c['_tags'] += [f'{rule}:premise', 'directed', 'bucklin_two_shared_ranks']
                     out.append(c)
+    # Condorcet-type rules on majority cycles of 5-6 candidates without a Condorcet winner: the Schulze winner rests on
+    # beat-paths of three and more edges (an incomplete transitive closure loses it after a lift of the winner)
+    cyc = [
+        [[[4, 5, 3, 1, 2, 0], '3'], [[5, 3, 1, 2, 0, 4], '4'], [[3, 1, 2, 0, 4, 5], '4'], [[1, 2, 0, 4, 5, 3], '3'],
+         [[0, 4, 5, 3, 1, 2], '3'], [[2, 0, 4, 5, 3, 1], '3'], [[1, 4], '2']],
+        [[[1, 2, 3, 4, 0, 5], '3'], [[0, 1, 2, 3, 4, 5], '3'], [[2, 3, 4, 0, 1, 5], '3'], [[4, 0, 1, 2, 3, 5], '4'],
+         [[3, 4, 0, 1, 2, 5], '4'], [[1], '2'], [[4, 3, 2, 0], '2'], [[3, 1], '1']],
+        [[[0, 1, 3, 2, 4], '4'], [[2, 4, 0, 1, 3], '4'], [[1, 3, 2, 4, 0], '3'], [[3, 2, 4, 0, 1], '4'],
+         [[4, 0, 1, 3, 2], '4'], [[2, 3, 4], '1'], [[1, 4], '1'], [[0, 2, 4, 3, 5], '2']],
+        [[[2, 3, 4, 0, 1], '4'], [[4, 0, 1, 2, 3], '4'], [[1, 2, 3, 4, 0], '3'], [[3, 4, 0, 1, 2], '4'],
+         [[0, 1, 2, 3, 4], '5'], [[3, 0, 4, 2], '2'], [[3, 4, 1], '2']],
+        [[[1, 0, 3, 2], '1'], [[0, 2, 1, 3], '2'], [[3, 2, 1, 0], '2']],
+    ]
+    for base in cyc:
+        if has_condorcet_winner(base):
+            continue
+        for rule in CONDORCET_RULES:
+            param = {'copeland': 1}.get(rule)
+            w = ref_winner(rule, param, base)
+            if w is None:
+                if rule != 'schulze':
+                    continue
+                w = 2                                # premise false: kept for the correspondence (seeded change C17c)
+                cases = [c for c in ranked_moves(rule, param, base, w) if c['kind'] == 'lift']
+                for c in cases:
+                    c['_tags'] += ['directed']
+                out += cases
+                continue
+            cases = ranked_moves(rule, param, base, w)
+            cases = [c for c in cases if c['kind'] != 'new_full'] + [c for c in cases if c['kind'] == 'new_full'][:6]
+            for c in cases:
+                c['_tags'] += [f'{rule}:premise', 'directed', f'{rule}:no_cw_4plus']
+                out.append(c)
+    # the wider reading of the new ballot (w first, others below): minimal cases in which the RULE ITSELF lets w lose
+    for rule, param, base, w, nb in NEW_FULL_WITNESSES:
+        c = _mk(rule, param, base, add_ballot(base, nb), w, 'new_full', {'kind': 'new', 'ballot': nb},
+                [f'{rule}:new_full', f'{rule}:premise', 'directed', 'new_full_rule_level_failure'])
+        out.append(c)
     # highest averages: exact quotient tie at the last seat, cap binding, previous gains
     cfg = {'divisor': 'd_hondt', 'first_coef': None, 'votes': [[0, '6'], [1, '3'], [2, '3']], 'n': 3, 'prev': [], 'max': []}
     out += [dict(c, _tags=c['_tags'] + ['directed', 'ha:tie_in_base']) for c in ha_pairs(cfg, [])]
@@ -991,6 +1127,8 @@ def generate(rng, tier):
     for rule in RANKED_RULES:
         for c in gen_ranked(rng, rule, 90 if quick else 2500):
             yield c
+    for c in gen_condorcet_cycles(rng, 25 if quick else 600):
+        yield c
     for c in gen_approval(rng, 150 if quick else 3000):
         yield c
     for c in gen_score(rng, 150 if quick else 3000):
@@ -1032,24 +1170,32 @@ def exhaustive_cases():
                     yield c
 
 
+NAME_MODES = ['str', 'int0', 'empty0']
 REQUIRED_COUNTERS = (['ha:house', 'ha:votes', 'ha:caps', 'ha:prev_gains', 'ha:tie_in_base', 'plurality:new',
                       'plurality:switch', 'plurality:premise', 'approval:approve', 'approval:new', 'approval:premise',
                       'score_sum:raise', 'score_sum:new', 'score_sum:premise', 'score_sum:raise_to_unscored_value',
                       'score_sum:unscored_None', 'score_sum:unscored_0', 'score_sum:unscored_1', 'score_sum:unscored_2',
                       'score_sum:unscored_5', 'score_sum:unscored_min', 'bucklin_two_shared_ranks', 'minimax_unbeaten_after_move',
                       'bucklin_second_round', 'bucklin_split_collision', 'lift_unranked', 'lift_out_of_shared', 'unit_of_heavier_ballot',
-                      'merges_with_existing', 'fractional_weight']
+                      'merges_with_existing', 'fractional_weight', 'new_full_rule_level_failure']
+                     + [f'{r}:no_cw_4plus' for r in ['copeland', 'minimax_wv', 'minimax_margins', 'schulze']]
+                     + [f'{r}:new_full' for r in ['bucklin', 'bucklin_whole', 'copeland', 'minimax_wv', 'minimax_margins', 'schulze']]
                      + [f'{r}:{k}' for r in RANKED_RULES for k in ('lift', 'new', 'premise')])
 
 RULE = ('highest averages: 1-5 parties, five divisors (+ modified first coefficient), n 1..9, previous gains, caps, vote '
         'increments 1 / 2 / 5 / 1/2 / 100, votes up to 10^20; winner rules: 2-4 candidates, 1-5 ballot types with weights '
         '1-4, 3/2, 5/2, 1000001 (truncated ballots, shared ranks), base profiles with a sole winner according to a reference computation, '
         'every single-unit lift of the winner on every ballot (sampled to 8 per profile in the quick tier) and the '
-        'admissible new ballots; thorough tier adds the exhaustive scopes (<=3 parties x votes<=4 x n<=5 x 5 divisors; '
+        'admissible new ballots (for Bucklin/Copeland/minimax/Schulze the bullet ballot and, kind new_full, w followed by a strict '
+        'order of other candidates); Copeland/minimax/Schulze additionally on majority cycles of 4-6 candidates without a Condorcet '
+        'winner (rotations of one order with unequal weights plus up to 3 extra ballots) with a strict first in the rule\'s own '
+        'relation, up to 14 lifts per profile; thorough tier adds the exhaustive scopes (<=3 parties x votes<=4 x n<=5 x 5 divisors; '
         '<=3 candidates x <=3 strict ballots x 10 ranked rules, every lift and every new ballot). Non-trivial = base '
         'result is the sole winner w (winner rules) / at least two parties and a non-error base (ha).')
 EXHAUSTIVE = {'thorough': True}
-NOT_VERIFIED = ['PreferenceAddition._decouple_equal_rankings is modelled (decouple/linearize) and tied to the code by the '
+NOT_VERIFIED = ['new ballots w > a > b ... (kind new_full) are rule-level non-monotone for Bucklin, Copeland, minimax(winning votes) and '
+                'Schulze: checked by the oracle and masked by one open known finding per rule; proved only for minimax with margins',
+                'PreferenceAddition._decouple_equal_rankings is modelled (decouple/linearize) and tied to the code by the '
                 'correspondence, but the Bucklin theorems cover profiles without shared ranks and split_equal_rankings=False',
                 'ScoreVoting("sum", unscored_value): the per-candidate {score: count} tables, the fill-in entry scores[u] = n_votes - '
                 'n_scores + scores.get(u, 0), their expansion into a list and builtin sum are modelled as sum of score x count + '
@@ -1081,12 +1227,15 @@ LEVEL_TEXT = ('Both halves of C17 are theorems about the executable models the d
               'ballot: plurality, Borda/Dowdall/Geometric/ModifiedBorda/FixedTop (score lists regenerated from rankscore.py and proved '
               'non-increasing), approval, score-sum, Bucklin, Copeland (first and second order) and minimax (three scorers) on the ballot level '
               'and on the pairwise-matrix level; Schulze (strict beat-path win over everybody, on top of the Floyd-Warshall correctness proof of C05) '
-              'likewise. The models are tied to /repo by '
+              'likewise. The wider reading of the new ballot (w first, other candidates below) is proved harmless for minimax with margins / '
+              'pairwise opposition and refuted on the models, by machine-checked witnesses, for Bucklin, Copeland, minimax with winning votes and '
+              'Schulze (rule-level failures, recorded as open known findings). The models are tied to /repo by '
               'running both elections of every pair through votelib and the Lean driver, which also re-applies the move.')
 LEVEL_NOTE = ('Trusted: Lean kernel + propext/Classical.choice/Quot.sound; translate.py for divisors and rank scorers; the correspondence harness '
-              '(bounded by its generator: <=5 parties / <=4 candidates, exhaustive small scopes in the thorough tier); pool abstraction of the '
+              '(bounded by its generator: <=5 parties / <=4 candidates, 4-6 on majority cycles without Condorcet winner, exhaustive small scopes in the thorough tier); pool abstraction of the '
               'highest-averages sorted list; frozenset iteration order modelled as ascending ids. Not proved: default Bucklin on profiles with shared ranks; '
               "score-sum with unscored_value='min'. "
               'Reading decisions (DESIGN 7/C17): a lift re-inserts w as a rank of its own (joining a shared rank is '
               'not admissible: false for non-convex score sequences); new ballots name existing candidates only (Borda rescales otherwise); '
-              'bullet ballots for Bucklin/Copeland/minimax/Schulze.')
+              'for Bucklin/Copeland/minimax/Schulze the bullet ballot is the proved reading and the full ballot w > a > b is checked as '
+              "kind 'new_full' (fails at rule level except for minimax with margins; known findings).")
